@@ -1348,6 +1348,9 @@ func (s *Store) restoreDBFromBackup(ctx context.Context, name string) (newPos lt
 	}
 	newPos = db.Pos()
 
+	// The backup service holds exactly the restored position.
+	db.SetHWM(newPos.TXID)
+
 	slog.Warn("database restore complete",
 		slog.String("name", name),
 		slog.String("pos", newPos.String()),
